@@ -108,7 +108,7 @@ pub struct Oracle {
     pub keys_desc: Vec<u32>,
     /// number of five-card hands in each class (index = ordinal, [0] unused)
     pub class_size: Vec<u32>,
-    ord_of_key: std::collections::HashMap<u32, u16>,
+    ord_of_key: Vec<u16>,
     /// [multiset index * 2 + flush] -> ordinal (0 = impossible)
     fast_ord: Vec<u16>,
     fast_key: Vec<u32>,
@@ -147,9 +147,9 @@ impl Oracle {
         if per_cat != CLASSES_PER_CAT {
             return Err(format!("classes per category {:?}", per_cat));
         }
-        let mut ord_of_key = std::collections::HashMap::new();
+        let mut ord_of_key = vec![0u16; 9 << 20];
         for (i, k) in keys.iter().enumerate() {
-            ord_of_key.insert(*k, (i + 1) as u16);
+            ord_of_key[*k as usize] = (i + 1) as u16;
         }
         let mut fast_ord = vec![0u16; 13usize.pow(5) * 2];
         let mut fast_key = vec![0u32; 13usize.pow(5) * 2];
@@ -165,7 +165,7 @@ impl Oracle {
                             let r = [a, b, c, d, e];
                             let i = ms_index(r);
                             let k = classify(r, false);
-                            fast_ord[i * 2] = ord_of_key[&k];
+                            fast_ord[i * 2] = ord_of_key[k as usize];
                             fast_key[i * 2] = k;
                             // number of suit assignments: product over ranks of C(4, mult), minus the 4 flushes
                             let mut cnt = [0u32; 13];
@@ -175,12 +175,12 @@ impl Oracle {
                             let ways: u32 = cnt.iter().map(|m| [1u32, 4, 6, 4, 1][*m as usize]).product();
                             if a < b && b < c && c < d && d < e {
                                 let kf = classify(r, true);
-                                fast_ord[i * 2 + 1] = ord_of_key[&kf];
+                                fast_ord[i * 2 + 1] = ord_of_key[kf as usize];
                                 fast_key[i * 2 + 1] = kf;
-                                class_size[ord_of_key[&kf] as usize] += 4;
-                                class_size[ord_of_key[&k] as usize] += ways - 4;
+                                class_size[ord_of_key[kf as usize] as usize] += 4;
+                                class_size[ord_of_key[k as usize] as usize] += ways - 4;
                             } else {
-                                class_size[ord_of_key[&k] as usize] += ways;
+                                class_size[ord_of_key[k as usize] as usize] += ways;
                             }
                         }
                     }
@@ -206,7 +206,7 @@ impl Oracle {
     }
     #[inline]
     pub fn ord_of(&self, key: u32) -> u16 {
-        *self.ord_of_key.get(&key).unwrap_or(&0)
+        *self.ord_of_key.get(key as usize).unwrap_or(&0)
     }
     #[inline]
     pub fn key_of_ord(&self, v: u16) -> Option<u32> {
